@@ -240,15 +240,17 @@ def run(chk, tier):
     # ---------------- R06.5 concat
     rows = paths_of(F, "<" + CV + " as std::ops::Add>::add")
     tp0, tp1 = "CelValue::type_prop(a, b).0", "CelValue::type_prop(a, b).1"
-    wantc = {"String": "CelValue::from_str([*%s.String.0, %s.String.0])" % (tp0, tp1),
-             "Bytes": "CelValue::Bytes(CelBytes::extend!(%s.Bytes.0, CelBytes::into_vec(%s.Bytes.0)))" % (tp0, tp1),
-             "List": "CelValue::from_val_slice([*%s.List.0, *%s.List.0])" % (tp0, tp1)}
+    WRAP_ = r"(?:CelValue::\w+|From::from<[^()]*>|Into::into<T><-U)"
+    tp0r, tp1r = re.escape(tp0), re.escape(tp1)
+    wantc = {"String": r"^%s\(\[\*%s\.String\.0, \*?%s\.String\.0\]\)$" % (WRAP_, tp0r, tp1r),
+             "Bytes": r"^%s\((?:CelBytes::extend!\(%s\.Bytes\.0, (?:CelBytes::into_vec\()?%s\.Bytes\.0\)?\)|\[\*%s\.Bytes\.0(?:\.0)?, \*?%s\.Bytes\.0(?:\.0)?\])\)$" % (WRAP_, tp0r, tp1r, tp0r, tp1r),
+             "List": r"^%s\(\[\*%s\.List\.0, \*%s\.List\.0\]\)$" % (WRAP_, tp0r, tp1r)}
     for ty, w in wantc.items():
         hits = [r["ret"] for r in rows if r["var"].get(tp0) == ty and r["var"].get(tp1) == ty]
-        if hits == [w]:
-            chk.ok("R06.5", "concat|" + ty, w)
+        if len(hits) == 1 and re.match(w, hits[0]):
+            chk.ok("R06.5", "concat|" + ty, hits[0])
         else:
-            chk.bad("R06.5", "concat|" + ty, "%s + %s must append the right operand to the left one (%s), found %s" % (ty, ty, w, hits), "rscel/src/types/cel_value.rs")
+            chk.bad("R06.5", "concat|" + ty, "%s + %s must be a value holding the left operand's content followed by the right operand's, found %s" % (ty, ty, hits), "rscel/src/types/cel_value.rs")
     # type_prop leaves non-numeric pairs unchanged (so .0 / .1 are the operands in order)
     tb = F.body(CV + "::type_prop")
     pol = semtables.LogicPolicy()
